@@ -27,7 +27,12 @@
 (*         replacement gets a new uid), node, ready                        *)
 (*  now    ticks since the job was created;  par.ttl = 0 means no TTL      *)
 (*  lastCalls  calls the controller issued in the last step, each stamped  *)
-(*         with the environment (reservation, pod) AT THAT INSTANT         *)
+(*         with the environment (reservation, pod) and the job's PERSISTED *)
+(*         phase (jp) AT THAT INSTANT                                      *)
+(*  lastWrites the phases carried by the job as persisted after every      *)
+(*         SUCCESSFUL write of the job in the last step (Update,           *)
+(*         Status().Update), in order: what an observer of the API server  *)
+(*         sees between the start and the end of one Reconcile             *)
 (*  nEvict Evict calls so far (capped), faulted: an API write has failed   *)
 (*                                                                         *)
 (* Rec(..) is a transcription of Reconcile/doMigrate's gate order: a pure  *)
@@ -42,10 +47,10 @@ EXTENDS Integers, Sequences, FiniteSets, TLC
 
 CONSTANTS Nodes,     \* node names
           MaxUid,    \* pod uids are 1..MaxUid
-          Repairs    \* subset of {"uid", "leak"}
+          Repairs    \* subset of {"uid", "leak"} (+ "seed-prepare-goes-on": a modelled defect, see Prepare)
 
-VARIABLES job, resv, pod, now, par, restarted, lastCalls, nEvict, faulted
-vars == <<job, resv, pod, now, par, restarted, lastCalls, nEvict, faulted>>
+VARIABLES job, resv, pod, now, par, restarted, lastCalls, lastWrites, nEvict, faulted
+vars == <<job, resv, pod, now, par, restarted, lastCalls, lastWrites, nEvict, faulted>>
 
 Terminal == {"Succeeded", "Failed"}
 EvictCap == 3
@@ -73,11 +78,22 @@ NumKind(calls, kinds) == Cardinality({i \in 1..Len(calls) : calls[i].kind \in ki
 G(calls) == \A i \in 1..Len(calls) : calls[i].kind = "Evict" => Secured(calls[i].r, calls[i].p)
 GInv == G(lastCalls)
 
-\* (Tm) a finished job keeps its phase and triggers no further eviction or reservation
-TmStep(j, jn, calls) == j.phase \in Terminal =>
-                            /\ jn.phase = j.phase
-                            /\ NumKind(calls, {"Evict", "CreateReservation"}) = 0
-Tm == [][TmStep(job, job', lastCalls')]_vars
+\* (Tm) a finished job keeps its phase and triggers no further eviction or reservation.
+\* "has reached succeeded or failed" = that phase has been PERSISTED, in an earlier step or earlier in this one:
+\*   TmWrites  in the sequence <phase before the step> \o <phases persisted by the step's writes> a terminal phase is
+\*             never followed by another phase (Failed -> Running -> Failed within one Reconcile is a phase change
+\*             although the step ends where it started);
+\*   TmCalls   no Evict / CreateReservation is issued at an instant at which the persisted phase is terminal.
+TmWrites(j, ws) == LET s == <<j.phase>> \o ws
+                   IN  \A i \in 1..(Len(s) - 1) : s[i] \in Terminal => s[i + 1] = s[i]
+TmCalls(calls) == \A i \in 1..Len(calls) :
+                      calls[i].kind \in {"Evict", "CreateReservation"} => calls[i].jp \notin Terminal
+TmStep(j, jn, calls, ws) ==
+    /\ j.phase \in Terminal => /\ jn.phase = j.phase
+                                /\ NumKind(calls, {"Evict", "CreateReservation"}) = 0
+    /\ TmWrites(j, ws)
+    /\ TmCalls(calls)
+Tm == [][TmStep(job, job', lastCalls', lastWrites')]_vars
 
 \* (Tt) a job aborted by its TTL has deleted its reservation
 TtInv == (job.phase = "Failed" /\ job.reason = "Timeout") => ~resv.exists
@@ -89,14 +105,16 @@ OnceInv == ~faulted => nEvict <= 1
 (* The controller: transcription of Reconcile / doMigrate                  *)
 (*   j0 job, r0 reservation, p pod as read from the API; t clock; pr parameters; rst restarted; F failing writes *)
 Rec(j0, r0, p, t, pr, rst, F) ==
-  LET c0 == [j |-> j0, r |-> r0, w |-> 0, calls |-> <<>>, hit |-> FALSE]
+  LET c0 == [j |-> j0, r |-> r0, w |-> 0, calls |-> <<>>, hit |-> FALSE, ph |-> <<>>]
       fails(c) == (c.w + 1) \in F                       \* the next write (or Evict) fails
       used(c)  == [c EXCEPT !.w = @ + 1, !.hit = @ \/ fails(c)]
-      call(c, k, ok) == [c EXCEPT !.calls = Append(@, [kind |-> k, ok |-> ok, r |-> c.r, p |-> p])]
+      call(c, k, ok) == [c EXCEPT !.calls = Append(@, [kind |-> k, ok |-> ok, r |-> c.r, p |-> p, jp |-> c.j.phase])]
+      \* a write of the job that is persisted: the job is now jn, an observer sees phase jn.phase
+      wrote(c, jn) == [used(c) EXCEPT !.j = jn, !.ph = Append(@, jn.phase)]
       \* Status().Update(job) carrying status jn, then return
-      SW(c, jn) == IF fails(c) THEN used(c) ELSE [used(c) EXCEPT !.j = jn]
+      SW(c, jn) == IF fails(c) THEN used(c) ELSE wrote(c, jn)
       \* Status().Update(job) carrying status jn; return on error, else go on with K
-      CondW(c, jn, K(_)) == IF fails(c) THEN used(c) ELSE K([used(c) EXCEPT !.j = jn])
+      CondW(c, jn, K(_)) == IF fails(c) THEN used(c) ELSE K(wrote(c, jn))
       abort(c, why) == SW(c, [c.j EXCEPT !.phase = "Failed", !.reason = why])
 
       \* ---- :408-430 all done
@@ -170,14 +188,19 @@ Rec(j0, r0, p, t, pr, rst, F) ==
                                                  !.reason = "FailedCreateReservation"])
                ELSE LET c1 == call(used(c), "CreateReservation", TRUE)
                         c2 == [c1 EXCEPT !.r = IF c.r.exists THEN c.r ELSE NewResv]     \* AlreadyExists: adopted
-                    IN  IF fails(c2) THEN used(c2) ELSE [used(c2) EXCEPT !.j.ref = TRUE]   \* Update(job) recording the reference
+                    IN  IF fails(c2) THEN used(c2) ELSE wrote(c2, [c2.j EXCEPT !.ref = TRUE])   \* Update(job) recording the reference
       AfterPrepare(c) == IF c.j.ref THEN WithRef(c) ELSE Create(c)
       \* ---- preparePendingJob (:433)
       Prepare(c) ==
           IF c.j.phase \in {"", "Pending"}
-          THEN IF ~p.exists THEN abort(c, "MissingPod")
+          THEN IF ~p.exists
+               THEN IF "seed-prepare-goes-on" \notin Repairs THEN abort(c, "MissingPod")
+                    \* a modelled DEFECT (seeded change C17-4; MC_seed_tm.cfg): preparePodRef returns the abort's own error,
+                    \* so preparePendingJob goes on and persists Running over the persisted Failed
+                    ELSE CondW(c, [c.j EXCEPT !.phase = "Failed", !.reason = "MissingPod"],
+                               LAMBDA c1 : CondW(c1, [c1.j EXCEPT !.phase = "Running"], AfterPrepare))
                ELSE IF fails(c) THEN used(c)                                 \* Update(job) recording the pod UID
-               ELSE LET c1 == [used(c) EXCEPT !.j.uid = p.uid]
+               ELSE LET c1 == wrote(c, [c.j EXCEPT !.uid = p.uid])
                     IN  CondW(c1, [c1.j EXCEPT !.phase = "Running"], AfterPrepare)
           ELSE AfterPrepare(c)
       \* ---- abortJobIfTimeout (:544)
@@ -197,14 +220,14 @@ Rec(j0, r0, p, t, pr, rst, F) ==
 Reconcile(F) ==
     LET o == Rec(job, resv, pod, now, par, restarted, F)
     IN  /\ job' = o.j /\ resv' = o.r
-        /\ lastCalls' = o.calls
+        /\ lastCalls' = o.calls /\ lastWrites' = o.ph
         /\ nEvict' = Min2(nEvict + NumKind(o.calls, {"Evict"}), EvictCap)
         /\ faulted' = (faulted \/ o.hit)
         /\ UNCHANGED <<pod, now, par, restarted>>
 
 -----------------------------------------------------------------------------
 (* The environment: only legal events                                      *)
-EnvFrame == lastCalls' = <<>> /\ UNCHANGED <<job, par, nEvict, faulted>>
+EnvFrame == lastCalls' = <<>> /\ lastWrites' = <<>> /\ UNCHANGED <<job, par, nEvict, faulted>>
 
 RScheduled(n) == /\ resv.exists /\ resv.st \in {"pending", "unsched"}
                  /\ resv' = [resv EXCEPT !.st = "scheduled", !.node = n, !.uc = FALSE]
@@ -241,5 +264,5 @@ Restart == /\ restarted' = TRUE
            /\ EnvFrame /\ UNCHANGED <<resv, pod, now>>
 
 InitWith(p0, n0) == /\ job = Job0 /\ resv = NoResv /\ pod = Pod0(n0) /\ now = 0 /\ par = p0
-                    /\ restarted = FALSE /\ lastCalls = <<>> /\ nEvict = 0 /\ faulted = FALSE
+                    /\ restarted = FALSE /\ lastCalls = <<>> /\ lastWrites = <<>> /\ nEvict = 0 /\ faulted = FALSE
 =============================================================================
